@@ -8,3 +8,20 @@ CLAIMS["C01"] = dict(
     note="Trusted: Lean kernel + Mathlib; the harness (generator, printer, interpreter); sympy parser/subs and lambdify/autowrap are validated per case, not proved. "
          "Identity of expressions is decided at 3 random rational points per case.",
     technique="Lean 4 induction over event/transition lists (fold = sum) + model/code correspondence")
+CLAIMS["C03"] = dict(
+    text="Proved in Lean (Mathlib HasDerivAt): the symbolic differentiator used by the model is the true derivative of every expression of the rate grammar "
+         "away from singularities (hasDerivAt_diff, defined_diff), and the Jacobian / gradient / second-derivative / gradient-Jacobian objects hold exactly those "
+         "derivatives at the documented positions (row e*nS+i, k*nS+i layouts) for every number of states and parameters; transitionJacobian/Mean/Var equal Cao et al. (7),(8a),(8b). "
+         "sympy's diff and the compiled evaluators are tied to the verified differentiator on every generated model of every run (symbolic exact-point comparison + numeric), "
+         "with a Lean-independent 50-digit finite-difference oracle for the failing-input search.",
+    note="Trusted: Lean kernel + Mathlib; harness generator/printer/interpreter. Modelled rather than verified: sympy.diff, Matrix.jacobian, lambdify/autowrap (translation-validated per model). "
+         "Expression identity decided at 2 random rational points per case.",
+    technique="Lean 4 structural induction on expressions (HasDerivAt) + index-arithmetic lemmas + model/code correspondence")
+CLAIMS["C10"] = dict(
+    text="Proved in Lean: for every transition-only model (any number of states/events, symbolic magnitudes, any field/interpretation) the assembled right-hand side sums to zero identically and every "
+         "state-change column sums to zero; a differentiable solution of x'=f(x) with sum f = 0 keeps the total constant (Mathlib calculus); every path built from integer combinations of "
+         "zero-sum columns keeps the total exactly, for every number of steps and any counts (induction). Tie: C01 correspondence for the assembly, the real stochastic paths are replayed through the "
+         "driver's apply_counts (the function the path theorem is about); direct oracle = the property on the real objects (exact-point sum of get_ode_eqn, integrate(t).sum, solve_stochast path sums, exact/tau/gridded).",
+    note="Deterministic conservation is judged to 1e-6 relative (scipy odeint tolerance assumed; failed integrations are skipped and counted). Crashes of solve_stochast are tagged, not judged (C04/C11/C15 own them). "
+         "Adaptive tau runs are cut at 8 s (termination is a probability-one statement).",
+    technique="Lean 4 induction over events/steps + Mathlib is_const_of_deriv_eq_zero + model/code correspondence")
